@@ -347,7 +347,9 @@ func newExplainer(fontInfo *sfnt.Font) *explainer {
 	mappings := make([]string, fontInfo.NumGlyphs())
 	if cmap, _ := fontInfo.CMapTable.GetBest(); cmap != nil {
 		a, b := cmap.CodeRange()
-		for r := a; r <= b; r++ {
+		// int64 loop variable: with b == math.MaxInt32 r++ would wrap around
+		for c := int64(a); c <= int64(b); c++ {
+			r := rune(c)
 			gid := cmap.Lookup(r)
 			if gid != 0 && unicode.IsPrint(r) {
 				mappings[gid] = fmt.Sprintf("%q", string([]rune{r}))
